@@ -158,6 +158,11 @@ inductive Step (κ γ τ σ : Type) where
   | read (o : Nat) (k : κ)
   | derive (o : Nat) (g : γ)
 
+/-- constructions and derivations build the object graph; reads only observe it -/
+def Step.isStructural : Step κ γ τ σ → Bool
+  | .read _ _ => false
+  | _ => true
+
 /-- one step: new heap and what the step reports (`none` for constructions / derivations / failed reads) -/
 def step (E : Effects κ γ τ σ ν) (fuel : Nat) (h : Heap κ σ ν) : Step κ γ τ σ → Heap κ σ ν × Option ν
   | .construct t c ps =>
